@@ -57,9 +57,11 @@ Theorem c16_rfc7797_deserialize_json :
 Proof. exact r7797_deserialize_json_ok. Qed.
 
 (* jwe.decrypt_compact *)
+(* jwe.decrypt_compact ; ka: Key / KeySet / str / other / callable ; sa: no sender key, a Key or a KeySet ;
+   reg: with or without the draft algorithms (ECDH-1PU, C20P, XC20P) registered *)
 Theorem c16_jwe_decrypt_compact :
-  forall P g reg ka v, prims_ok P -> needs_jwe_compact g = true -> jwe_reg_wf2 reg = true ->
-    match jwe_decrypt_compact g P reg ka v with Err e => allowed_exn e = true | Ok _ => True end.
+  forall P g reg ka sa v, prims_ok P -> needs_jwe_compact g = true -> jwe_reg_wf2 reg = true ->
+    match jwe_decrypt_compact g P reg ka sa v with Err e => allowed_exn e = true | Ok _ => True end.
 Proof. exact jwe_decrypt_compact_ok. Qed.
 
 (* jwt.decode with a JWE registry *)
@@ -70,9 +72,9 @@ Proof. exact jwt_decode_jwe_ok. Qed.
 
 (* jwe.decrypt_json, general and flattened *)
 Theorem c16_jwe_decrypt_json :
-  forall P g reg ka data, prims_ok P -> needs_jwe_json g = true -> jwe_reg_wf2 reg = true ->
+  forall P g reg ka sa data, prims_ok P -> needs_jwe_json g = true -> jwe_reg_wf2 reg = true ->
     jwe_documented_shape data = true ->
-    match jwe_decrypt_json g P reg ka data with Err e => allowed_exn e = true | Ok _ => True end.
+    match jwe_decrypt_json g P reg ka sa data with Err e => allowed_exn e = true | Ok _ => True end.
 Proof. exact jwe_decrypt_json_ok. Qed.
 
 (* non-vacuity of the hypotheses: the code with all guards meets every [needs_*]; the registries
@@ -95,7 +97,8 @@ Proof. exact W_ok. Qed.
 (* table facts the JWE theorems rest on: every registered key-management algorithm belongs to a
    modelled family and registers its extra header parameters with the expected validators
    (epk: jwk, required; apu/apv: str; p2s: str, p2c: int, required; iv/tag: str, required) *)
-Theorem c16_jwe_alg_table_modelled : forallb row_ok jwe_alg_table = true.
+Theorem c16_jwe_alg_table_modelled :
+  forallb row_ok jwe_alg_table = true /\ forallb row_ok jwe_alg_table_drafts = true.
 Proof. exact jwe_table_ok. Qed.
 
 (* the witnesses of the removed defects are rejected with an allowed class by the guarded code *)
@@ -110,7 +113,7 @@ Theorem c16_header_not_object_jws_compact_refuted :
   is_err (jws_deserialize_compact (all_but 0) (W (T "alg")) default_jws_reg (AKey k_oct) (tok "ImFsZyI.e30.e30")) EType = true.
 Proof. exact r00_header_not_object_jws_compact. Qed.
 Theorem c16_header_not_object_jwe_compact_refuted :
-  is_err (jwe_decrypt_compact (all_but 1) (W (T "algenc")) default_jwe_reg (AKey k_oct) (tok "ImFsZ2VuYyI....")) EType = true.
+  is_err (jwe_decrypt_compact (all_but 1) (W (T "algenc")) default_jwe_reg (AKey k_oct) SNone (tok "ImFsZ2VuYyI....")) EType = true.
 Proof. exact r01_header_not_object_jwe_compact. Qed.
 Theorem c16_header_not_object_jws_json_refuted :
   jws_documented_shape flat_jws = true /\
@@ -121,39 +124,39 @@ Theorem c16_header_not_object_7797_json_refuted :
 Proof. exact r03_header_not_object_7797_json. Qed.
 Theorem c16_header_not_object_jwe_json_refuted :
   jwe_documented_shape flat_jwe = true /\
-  is_err (jwe_decrypt_json (all_but 4) (W (PInt 1)) default_jwe_reg (AKeySet [k_oct]) flat_jwe) EType = true.
+  is_err (jwe_decrypt_json (all_but 4) (W (PInt 1)) default_jwe_reg (AKeySet [k_oct]) SNone flat_jwe) EType = true.
 Proof. exact r04_header_not_object_jwe_json. Qed.
 Theorem c16_crit_not_iterable_refuted :
   is_err (jws_deserialize_compact (all_but 5) (W (D [("alg", T "HS256"); ("crit", PInt 0)]%string)) default_jws_reg
             (AKey k_oct) (tok "e30.e30.e30")) EType = true.
 Proof. exact r05_crit_not_iterable. Qed.
 Theorem c16_enc_missing_refuted :
-  is_err (jwe_decrypt_json (all_but 6) (W (D [])) default_jwe_reg (AKey k_oct) flat_jwe) EKey = true.
+  is_err (jwe_decrypt_json (all_but 6) (W (D [])) default_jwe_reg (AKey k_oct) SNone flat_jwe) EKey = true.
 Proof. exact r06_enc_missing. Qed.
 Theorem c16_enc_unhashable_refuted :
   is_err (jwe_decrypt_compact (all_but 7) (W (D [("alg", T "dir"); ("enc", PList [])]%string)) default_jwe_reg
-            (AKey k_oct) (tok "e30..AAAAAAAAAAAAAAAA..")) EType = true.
+            (AKey k_oct) SNone (tok "e30..AAAAAAAAAAAAAAAA..")) EType = true.
 Proof. exact r07_enc_unhashable. Qed.
 Theorem c16_jws_get_alg_unhashable_refuted :
   is_err (jws_get_alg (all_but 8) default_jws_reg (PList [])) EType = true.
 Proof. exact r08_jws_get_alg_unhashable. Qed.
 Theorem c16_epk_unknown_ec_curve_refuted :
-  is_err (jwe_decrypt_compact (all_but 9) (W (ecdh_header (epk_ec "P-999" []))) default_jwe_reg (AKey k_ec)
+  is_err (jwe_decrypt_compact (all_but 9) (W (ecdh_header (epk_ec "P-999" []))) default_jwe_reg (AKey k_ec) SNone
             (tok "e30..AAAAAAAAAAAAAAAA..")) EKey = true.
 Proof. exact r09_epk_unknown_ec_curve. Qed.
 Theorem c16_epk_unknown_okp_curve_refuted :
   is_err (jwe_decrypt_compact (all_but 10)
-            (W (ecdh_header (D [("kty", T "OKP"); ("crv", T "X999"); ("x", T "AA")]%string))) default_jwe_reg (AKey k_x25519)
+            (W (ecdh_header (D [("kty", T "OKP"); ("crv", T "X999"); ("x", T "AA")]%string))) default_jwe_reg (AKey k_x25519) SNone
             (tok "e30..AAAAAAAAAAAAAAAA..")) EKey = true.
 Proof. exact r10_epk_unknown_okp_curve. Qed.
 Theorem c16_p2c_negative_refuted :
   is_err (jwe_decrypt_compact (all_but 11)
             (W (D [("alg", T "PBES2-HS256+A128KW"); ("enc", T "A128GCM"); ("p2s", T "AA"); ("p2c", PInt (-1)%Z)]%string))
-            jwe_all (AKey k_oct) (tok "e30..AAAAAAAAAAAAAAAA..")) EOverflow = true.
+            jwe_all (AKey k_oct) SNone (tok "e30..AAAAAAAAAAAAAAAA..")) EOverflow = true.
 Proof. exact r11_p2c_negative. Qed.
 Theorem c16_corrupt_deflate_refuted :
   is_err (jwe_decrypt_compact (all_but 12) (W (D [("alg", T "dir"); ("enc", T "A128GCM"); ("zip", T "DEF")]%string))
-            default_jwe_reg (AKey k_oct) (tok "e30..AAAAAAAAAAAAAAAA..")) EZlib = true.
+            default_jwe_reg (AKey k_oct) SNone (tok "e30..AAAAAAAAAAAAAAAA..")) EZlib = true.
 Proof. exact r12_corrupt_deflate. Qed.
 Theorem c16_eddsa_with_x25519_refuted :
   is_err (jws_deserialize_compact (all_but 13) (W (D [("alg", T "EdDSA")]%string)) jws_all (AKey k_x25519)
@@ -166,7 +169,7 @@ Theorem c16_rfc7797_wrong_key_kind_refuted :
 Proof. exact r14_rfc7797_wrong_key_kind. Qed.
 Theorem c16_missing_encrypted_key_refuted :
   is_err (jwe_decrypt_json (all_but 15) (W (D [("alg", T "A128KW"); ("enc", T "A128GCM")]%string)) default_jwe_reg
-            (AKey k_oct) flat_jwe) EAssert = true.
+            (AKey k_oct) SNone flat_jwe) EAssert = true.
 Proof. exact r15_missing_encrypted_key. Qed.
 Theorem c16_header_recursion_refuted :
   is_err (jws_deserialize_compact (all_but 16) Wrec default_jws_reg (AKey k_oct) (tok "e30.e30.e30")) ERuntime = true.
@@ -180,6 +183,51 @@ Theorem c16_use_list_refuted :
   is_err (validate_use_ops (all_but 18) (D [("use", PList []); ("key_ops", PList [])]%string)) EType = true /\
   is_err (validate_use_ops all_guards (D [("use", PList []); ("key_ops", PList [])]%string)) EValue = true.
 Proof. exact r18_use_list. Qed.
+
+(* round 2: ECDH-1PU and sender keys *)
+Theorem c16_1pu_without_sender_refuted :
+  is_err (jwe_decrypt_compact (all_but 19) (W pu_header) jwe_all (AKey k_ec) SNone (tok "e30..AAAAAAAAAAAAAAAA..")) EAssert = true /\
+  is_err (jwt_decode_jwe (all_but 19) (W pu_header) jwe_all (AKey k_ec) (tok "e30..AAAAAAAAAAAAAAAA..")) EAssert = true.
+Proof. exact r19_1pu_without_sender. Qed.
+Theorem c16_1pu_rsa_sender_refuted :
+  is_err (jwe_decrypt_compact (all_but 20) (W pu_header_skid) jwe_all (AKey k_ec) (SSet [k_ec; k_rsa_kid])
+            (tok "e30..AAAAAAAAAAAAAAAA..")) EAttr = true.
+Proof. exact r20_1pu_rsa_sender. Qed.
+(* partial: the model has no RSA / oct key import; without the guard it leaves its fragment (the real
+   witness, AttributeError, is in harness/props/c16.meta.json), with it InvalidKeyTypeError *)
+Theorem c16_1pu_rsa_recipient_partial :
+  is_err (jwe_decrypt_compact (all_but 21) (W pu_header) jwe_all (AKey k_rsa) (SKey k_ec)
+            (tok "e30..AAAAAAAAAAAAAAAA..")) EOracleMiss = true /\
+  is_err (jwe_decrypt_compact all_guards (W pu_header) jwe_all (AKey k_rsa) (SKey k_ec)
+            (tok "e30..AAAAAAAAAAAAAAAA..")) (EJose InvalidKeyTypeError) = true.
+Proof. exact r21_1pu_rsa_recipient. Qed.
+
+(* callable keys and non-key objects: what guess_key does *)
+Example c16_callable_keys :
+  guess_key (ACall (AKey k_oct)) (Ok (PDict [])) = Ok k_oct /\
+  guess_key (ACall (AText k_oct)) (Ok (PDict [])) = Ok k_oct /\
+  guess_key (ACall AOther) (Ok (PDict [])) = Err EValue /\
+  guess_key (ACall (ACall (AKey k_oct))) (Ok (PDict [])) = Err EValue /\
+  guess_key AOther (Ok (PDict [])) = Err EValue /\
+  guess_key (ACall (AKeySet [])) (Ok (PDict [])) = Err (EJose InvalidKeyIdError).
+Proof. exact callable_keys. Qed.
+
+(* every guard is necessary: for each of the guards, the model with all guards except that one admits an
+   input on which it raises a class outside {JoseError, ValueError} (the i-th entry of escape_witnesses,
+   proofs/C16Refuted.v, is that input evaluated) *)
+Theorem c16_guards_are_necessary :
+  length escape_witnesses = length (guards_list all_guards) /\
+  forall i, (i < length (guards_list all_guards))%nat -> nth i escape_witnesses false = true.
+Proof. exact guards_are_necessary. Qed.
+
+(* the exception classes each primitive's contract allows (contract_classes, proofs/C16Refuted.v:
+   json.loads: ValueError, RecursionError; alg.verify: ValueError, UnsupportedKeyOperationError;
+   enc.decrypt: ValueError, DecodeError; zlib: zlib.error, ExceededSizeError; rsa.decrypt: DecodeError;
+   aes_key_unwrap: DecodeError, ValueError; gcm.unwrap: ValueError, DecodeError; pbkdf2 / import_epk /
+   ecdh / concat_kdf: ValueError).  A world that stays within the table satisfies prims_ok; the harness
+   checks every class it observes at a primitive of /repo against this table (case CContract). *)
+Theorem c16_contract_classes : forall P, prims_in_classes P -> prims_ok P.
+Proof. exact contract_classes_ok. Qed.
 
 Print Assumptions c16_jws_deserialize_compact.
 Print Assumptions c16_jwt_decode_jws.
@@ -213,3 +261,9 @@ Print Assumptions c16_missing_encrypted_key_refuted.
 Print Assumptions c16_header_recursion_refuted.
 Print Assumptions c16_claims_recursion_refuted.
 Print Assumptions c16_use_list_refuted.
+Print Assumptions c16_1pu_without_sender_refuted.
+Print Assumptions c16_1pu_rsa_sender_refuted.
+Print Assumptions c16_1pu_rsa_recipient_partial.
+Print Assumptions c16_callable_keys.
+Print Assumptions c16_guards_are_necessary.
+Print Assumptions c16_contract_classes.
